@@ -81,13 +81,13 @@ pred wmInv(wm) := wm.lastSentWatermark <= wm.currentWatermark && wm.maxEventTime
   && (wm.maxOutOfOrderness >= 0 && !zero(wm.maxEventTime) && wm.idleTimeout <= 0 ==> zero(wm.currentWatermark) || wm.currentWatermark <= wm.maxEventTime - wm.maxOutOfOrderness)
 
 func (*Watermark).sendWatermarkLocked
-  props C02 C08 C10
+  props C02 C08 C10 C01
   held wm.mu
   option channel_events
   requires wm.lastSentWatermark <= wm.currentWatermark
   modifies wm.lastSentWatermark, ghost(sends)
-  ensures [C02 C08 C10] recorded-only-when-delivered: wm.lastSentWatermark != old(wm.lastSentWatermark) ==> ghost(sends) == old(ghost(sends)) + 1
-  ensures [C02 C08 C10] nothing-pending-means-no-send: wm.currentWatermark <= old(wm.lastSentWatermark) ==> ghost(sends) == old(ghost(sends))
+  ensures [C02 C08 C10 C01] recorded-only-when-delivered: wm.lastSentWatermark != old(wm.lastSentWatermark) ==> ghost(sends) == old(ghost(sends)) + 1
+  ensures [C02 C08 C10 C01] nothing-pending-means-no-send: wm.currentWatermark <= old(wm.lastSentWatermark) ==> ghost(sends) == old(ghost(sends))
   ensures sent-is-current: wm.lastSentWatermark == old(wm.lastSentWatermark) || wm.lastSentWatermark == wm.currentWatermark
   ensures bounded: wm.lastSentWatermark <= wm.currentWatermark
   ensures monotone: wm.lastSentWatermark >= old(wm.lastSentWatermark)
@@ -135,7 +135,9 @@ immutable TumblingWindow: config, size
 monitor TumblingWindow.mu inv twInv
 monitor TumblingWindow.mu inv twNoStranded
 
-pred twInv(tw) := tw.size > 0
+pred twInv(tw) := tw.size > 0 && twOpenOK(tw)
+// a fired window kept for late rows stays open until its own end plus the allowance
+pred twOpenOK(tw) := forallv(k, "", dom(tw.triggeredWindows, k) ==> tw.triggeredWindows[k] != nil && tw.triggeredWindows[k].slot != nil && tw.triggeredWindows[k].slot.End != nil && tw.triggeredWindows[k].closeTime == *tw.triggeredWindows[k].slot.End + tw.config.AllowedLateness)
   && (tw.initialized ==> tw.currentSlot != nil)
   && (!tw.initialized ==> len(tw.data) == 0)
   && (tw.currentSlot != nil ==> slotOK(tw.currentSlot, tw.size))
@@ -279,7 +281,9 @@ guarded_by SlidingWindow.mu: data, currentSlot, initialized, triggeredWindows, c
 immutable SlidingWindow: config, size, slide
 monitor SlidingWindow.mu inv swInv
 
-pred swInv(sw) := sw.size > 0 && sw.slide > 0
+pred swInv(sw) := sw.size > 0 && sw.slide > 0 && swOpenOK(sw)
+// a fired window kept for late rows stays open until its own end plus the allowance
+pred swOpenOK(sw) := forallv(k, "", dom(sw.triggeredWindows, k) ==> sw.triggeredWindows[k] != nil && sw.triggeredWindows[k].slot != nil && sw.triggeredWindows[k].slot.End != nil && sw.triggeredWindows[k].closeTime == *sw.triggeredWindows[k].slot.End + sw.config.AllowedLateness)
   && (sw.initialized ==> sw.currentSlot != nil)
   && (sw.currentSlot != nil ==> slotOK(sw.currentSlot, sw.size))
   && (sw.currentSlot != nil ==> divides(sw.slide, *sw.currentSlot.Start))
@@ -487,6 +491,16 @@ func (*CountingWindow).SetCallback
   modifies cw.callback
   ensures cw.callback == callback
 
+// ingest side: every row offered to a running window is handed to the window goroutine (or the window is shutting down);
+// no row is dropped for what it contains
+func (*CountingWindow).Add
+  props C09
+  option channel_events
+  acquires cw.mu
+  modifies ghost(sends), ghost(dones)
+  ensures a-row-offered-to-a-running-window-is-queued-or-the-window-is-stopping: !old(cw.stopped) ==> ghost(sends) + ghost(dones) == old(ghost(sends)) + old(ghost(dones)) + 1
+  ensures a-stopped-window-takes-nothing: old(cw.stopped) ==> ghost(sends) == old(ghost(sends))
+
 func (*CountingWindow).Start$1
   props C09
   modifies *
@@ -580,21 +594,25 @@ extern (*GlobalWindow).getKeyAndValues
 
 func lookupFieldValue
   props C17
+  option pure
   ensures bare-column-direct-lookup: true
 
 func toAggregateValue
   props C17
+  option pure
   ensures non-null-stays-non-null: v != nil ==> result != nil
 
 func feedAggs
   props C17
   modifies pkgheaps(functions)
   before Add null-or-missing-input-is-never-fed: $arg1 != nil
+  before Add only-count-star-counts-rows-every-other-aggregate-is-fed-the-rows-own-value: (spec.inputField == "*" ==> $arg1 == boxof(1, int)) && (spec.inputField != "*" ==> second(lookupFieldValue(data, spec.inputField)) && lookupFieldValue(data, spec.inputField) != nil && $arg1 == toAggregateValue(lookupFieldValue(data, spec.inputField)))
 
 func feedTriggerAggs
   props C17
   modifies pkgheaps(functions)
   before Add null-or-missing-input-is-never-fed: $arg1 != nil
+  before Add only-count-star-counts-rows-every-other-aggregate-is-fed-the-rows-own-value: (spec.inputField == "*" ==> $arg1 == boxof(1, int)) && (spec.inputField != "*" ==> second(lookupFieldValue(data, spec.inputField)) && lookupFieldValue(data, spec.inputField) != nil && $arg1 == toAggregateValue(lookupFieldValue(data, spec.inputField)))
 
 func newGroupState
   props C17
